@@ -383,6 +383,8 @@ def run_property(pid, spec, tier, seed, replay=None):
     def relevant(msg):
         """oracle messages start with [<property>-<sig>]; another property's finding is judged by that property's check"""
         m = re.match(r"\[(C\d+)-", msg)
+        if pid == "C04" and re.match(r"\[C\d+-panic\]", msg):
+            return True          # a panic caught by any job is a C04 matter as well
         return (m is None) or (m.group(1) == pid) or (m.group(1) in spec.get("also_sigs", []))
 
     def process(r):
